@@ -80,6 +80,22 @@ pub trait Engine {
     fn init(&self) {}
 }
 
+/// `e.run`, with a panic that escapes it (a call into the crate the scenario module did not wrap)
+/// turned into a violation of the run's property instead of the death of the process.
+fn guarded_run(e: &dyn Engine, rp: &Replay, st: &mut Stats) -> Option<Violation> {
+    match std::panic::catch_unwind(std::panic::AssertUnwindSafe(|| e.run(rp, st))) {
+        Ok(v) => v,
+        Err(p) => {
+            let msg = p.downcast_ref::<String>().cloned().or_else(|| p.downcast_ref::<&str>().map(|s| s.to_string())).unwrap_or_else(|| "(non-string payload)".into());
+            let w = crate::world::world();
+            w.in_sut = false;
+            w.mon_active = false;
+            let props: Vec<&str> = vec![rp.property.as_str()];
+            Some(viol(&props, "panic", 0, format!("the run panicked outside a guarded call site: {msg}")))
+        }
+    }
+}
+
 fn arg<'a>(args: &'a [String], name: &str) -> Option<&'a str> {
     args.iter().position(|a| a == name).and_then(|i| args.get(i + 1)).map(|s| s.as_str())
 }
@@ -111,7 +127,7 @@ pub fn run_isolated(e: &dyn Engine, rp: &Replay) -> Verdict {
             libc::close(fds[0]);
             libc::dup2(fds[1], 2);
             let mut st = Stats::default();
-            let v = e.run(rp, &mut st);
+            let v = guarded_run(e, rp, &mut st);
             let s = match v {
                 None => "PASS\n".to_string(),
                 Some(v) => format!("VIOL {}\n", serde_json::to_string(&v).unwrap()),
@@ -354,7 +370,7 @@ pub fn main_driver(e: &dyn Engine) {
                 run_isolated(e, &rp)
             } else {
                 let mut st = Stats::default();
-                match e.run(&rp, &mut st) {
+                match guarded_run(e, &rp, &mut st) {
                     None => Verdict::Pass,
                     Some(v) => Verdict::Viol(v),
                 }
@@ -433,7 +449,7 @@ pub fn main_driver(e: &dyn Engine) {
                 st.runs += 1;
                 st.evhash = 0;
                 crate::world::world().evhash = 0;
-                let v = e.run(&rp, &mut st);
+                let v = guarded_run(e, &rp, &mut st);
                 {
                     let w = crate::world::world();
                     w.fold_trace();
